@@ -16,7 +16,7 @@ Definition kind_v (k : string) : value := VCon ("MsgType::" ++ k) [].
 Definition none : value := VCon "None" [].
 Definition some (v : value) : value := VCon "Some" [v].
 Definition opt (b : bool) (v : value) : value := if b then some v else none.
-Definition quote_empty : value := VCon "quote" [VStr ""].
+Definition quote_empty : value := VCon "quote" [VStr ""; VRec "holes" []].
 Definition default_ep (k : string) : value := VCon "default_entry_point" [kind_v k].
 
 (* the look-up of an override answered by six arbitrary options, one per kind *)
@@ -56,9 +56,10 @@ Theorem translated_entry_points_emit (bi be bq bs bm br has_migrate has_reply : 
       [ep_self src (opt has_reply rfn) ovs g w]
       (CVal (VCon "quote"
          [VStr text;
-          VArr [ep_of bi "Instantiate"; ep_of be "Exec"; ep_of bq "Query"; ep_of bs "Sudo"];
-          (if negb bm && has_migrate then default_ep "Migrate" else quote_empty);
-          (if br then quote_empty else if has_reply then default_ep "Reply" else quote_empty)])).
+          VRec "holes"
+            [("entry_points", VArr [ep_of bi "Instantiate"; ep_of be "Exec"; ep_of bq "Query"; ep_of bs "Sudo"]);
+             ("migrate", if negb bm && has_migrate then default_ep "Migrate" else quote_empty);
+             ("reply_ep", if br then quote_empty else if has_reply then default_ep "Reply" else quote_empty)]])).
 Proof.
   destruct bi, be, bq, bs, bm, br, has_migrate, has_reply; eexists; run.
 Qed.
@@ -128,4 +129,93 @@ Proof.
       * apply (evals_compute _ 4). intros gg fl. simpl. rewrite map_length. reflexivity.
       * rewrite Nat.sub_0_r. exact Hfor.
     + apply ev_stmts_tail. rewrite Hinv. cbn [Nat.add]. rewrite firstn_all. cmp 4.
+Qed.
+
+(* ------------------------------------------------------------------------------------------ *)
+(* `MtHelpers::emit_impl_contract` + `emit_default_dispatch` (sylvia-derive/src/contract/mt.rs, GenImp.mtlogic_fns): which body
+   each of the six operations of the generated `impl cw_multi_test::Contract` gets. Stubs: the override look-up (six
+   arbitrary options), `get_only_variant` of the migrate / reply variants (two flags), and functions that only build names
+   or token fragments (recorded as `name [args]`). *)
+Definition rec_stub (name : string) (params : list string) : fn_def :=
+  stub ("extern::" ++ name) params (ECon name (map EVar params)).
+
+Definition MTL (oi oe oq os om orp : value) (has_migrate has_reply : bool) : program :=
+  lookup_stub oi oe oq os om orp :: mtlogic_fns ++
+  [rec_stub "crate_module" []; rec_stub "emit_bracketed_generics" ["generics"]; rec_stub "get_ident_from_type" ["ty"];
+   rec_stub "emit_multitest_dispatch" ["entry_point"]; rec_stub "function_name" ["variant"];
+   rec_stub "msg_or_default" ["custom"]; rec_stub "query_or_default" ["custom"];
+   rec_stub "emit_ctx_values" ["msg_ty"]; rec_stub "as_accessor_wrapper_name" ["msg_ty"];
+   stub "extern::get_only_variant" ["variants"]
+     (EMatch (EVar "variants") [(PLit (VStr "MIGRATE VARIANTS"), EConst (opt has_migrate (VStr "the migrate handler")));
+                                (PLit (VStr "REPLY VARIANTS"), EConst (opt has_reply (VStr "the reply handler")))])].
+
+Definition mt_self (cname custom ovs generics : value) (replies : bool) : value :=
+  VRec "MtHelpers" [("source", VRec "ItemImpl" [("generics", VRec "Generics" [("where_clause", VStr "where")])]);
+                    ("contract_name", cname); ("custom", custom); ("override_entry_points", ovs);
+                    ("sv_features", VRec "SylviaFeatures" [("replies", VBool replies)]); ("generic_params", generics);
+                    ("migrate_variants", VStr "MIGRATE VARIANTS"); ("reply_variants", VStr "REPLY VARIANTS")].
+
+Definition quote_v (text : string) (holes : list (string * value)) : value := VCon "quote" [VStr text; VRec "holes" holes].
+Definition cm : value := VCon "crate_module" [].
+
+(* the texts of the templates involved (whatever they are: they are taken from the source) *)
+Record texts := { t_impl : string; t_dd : string; t_api : string; t_bail_migrate : string; t_bail_reply : string;
+                  t_turbofish_generic : string; t_turbofish_plain : string; t_reply_new : string; t_reply_legacy : string }.
+
+(* the body that decodes the message of kind k and dispatches it: its message type is the contract's accessor of THAT kind
+   (`<Contract as ContractApi>::<accessor wrapper of k>`), its context the values of THAT kind *)
+Definition default_dispatch (T : texts) (k : string) (cname : value) : value :=
+  quote_v (t_dd T)
+    [("sylvia", cm);
+     ("api_msg", quote_v (t_api T) [("contract_name", cname); ("sylvia", cm); ("msg_name", VCon "as_accessor_wrapper_name" [kind_v k])]);
+     ("values", VCon "emit_ctx_values" [kind_v k])].
+Definition override_dispatch (ov : value) : value := VCon "emit_multitest_dispatch" [ov].
+
+Definition op_body (T : texts) (overridden : bool) (ov : value) (k : string) (cname : value) : value :=
+  if overridden then override_dispatch ov else default_dispatch T k cname.
+
+Definition migrate_body (T : texts) (bm : bool) (vm : value) (has_migrate : bool) (cname : value) : value :=
+  if bm then override_dispatch vm
+  else if has_migrate then default_dispatch T "Migrate" cname
+  else quote_v (t_bail_migrate T) [("sylvia", cm)].
+
+Definition reply_body (T : texts) (br : bool) (vr : value) (has_reply replies : bool) (cname : value) (gens : list value) : value :=
+  if br then override_dispatch vr
+  else if has_reply then
+    let ident := VCon "get_ident_from_type" [cname] in
+    let turbofish := match gens with
+                     | [] => quote_v (t_turbofish_plain T) [("contract_ident", ident)]
+                     | _ => quote_v (t_turbofish_generic T) [("contract_ident", ident); ("generic_params", VArr gens)]
+                     end in
+    if replies then quote_v (t_reply_new T) [("contract_turbofish", turbofish)]
+    else quote_v (t_reply_legacy T) [("reply_name", VCon "function_name" [VStr "the reply handler"])]
+  else quote_v (t_bail_reply T) [("sylvia", cm)].
+
+Definition impl_contract_spec (T : texts) (bi be bq bs bm br has_migrate has_reply replies : bool)
+    (vi ve vq vs vm vr cname custom : value) (gens : list value) : value :=
+  quote_v (t_impl T)
+    [("bracketed_generics", VCon "emit_bracketed_generics" [VArr gens]); ("sylvia", cm);
+     ("custom_msg", VCon "msg_or_default" [custom]); ("custom_query", VCon "query_or_default" [custom]);
+     ("contract_name", cname); ("full_where_clause", VStr "where");
+     ("exec_body", op_body T be ve "Exec" cname);
+     ("instantiate_body", op_body T bi vi "Instantiate" cname);
+     ("query_body", op_body T bq vq "Query" cname);
+     ("sudo_body", op_body T bs vs "Sudo" cname);
+     ("reply_body", reply_body T br vr has_reply replies cname gens);
+     ("migrate_body", migrate_body T bm vm has_migrate cname)].
+
+(* For EVERY combination of overrides, of declared migrate / reply handlers, of the replies feature and of generic
+   parameters, the six operations of the generated `impl cw_multi_test::Contract` get exactly: the dispatch of the override
+   registered for THEIR OWN kind when there is one; otherwise the default dispatch that decodes the message of THEIR OWN
+   kind (migrate: only when a migrate handler exists, else `bail!`; reply: the reply dispatch / the legacy handler's own
+   name when a reply handler exists, else `bail!`). *)
+Theorem translated_emit_impl_contract :
+  exists T, forall (bi be bq bs bm br has_migrate has_reply replies : bool) vi ve vq vs vm vr cname custom ovs (gens : list value),
+    calls (MTL (opt bi vi) (opt be ve) (opt bq vq) (opt bs vs) (opt bm vm) (opt br vr) has_migrate has_reply) 3
+          "MtHelpers::emit_impl_contract" [mt_self cname custom ovs (VArr gens) replies]
+      (CVal (impl_contract_spec T bi be bq bs bm br has_migrate has_reply replies vi ve vq vs vm vr cname custom gens)).
+Proof.
+  eexists (Build_texts _ _ _ _ _ _ _ _ _). intros.
+  destruct gens as [|g0 gens]; destruct bi, be, bq, bs, bm, br, has_migrate, has_reply, replies;
+    (apply (calls_of_run _ 3 300); [reflexivity | vm_compute; reflexivity]).
 Qed.
